@@ -372,6 +372,20 @@ def release(ctx, prog, hier):
                            detail="" if p2 is None else "path " + fa.fmt_path(p2), func=f.qualname, key=f"C14-D4/STATE|{f.qualname}|{var}|broadcast-or-release")
     ctx.floor("C14-D4/STATE", "functions that release a transaction", n, 10)
     owners(ctx, prog)
+    # a held output must keep its is_reserved mark while wallet sync re-saves the transaction that created it: txo rows are inserted with
+    # ignore_duplicate, never replaced (a REPLACE writes the column default 0 back)
+    n = 0
+    for m_, c_ in prog.calls_named("_insert_sql"):
+        if not m_.name.startswith("lbry.wallet") or m_.name.startswith("lbry.wallet.server") or not c_.args or not is_const(c_.args[0], "txo"):
+            continue
+        n += 1
+        ok = kwarg(c_, "replace") is None and is_const(kwarg(c_, "ignore_duplicate"), True)
+        ctx.ob("C14-D4/WRITERS", ok, f"{m_.relpath}:{c_.lineno}", "txo rows are inserted with ignore_duplicate and never replaced (re-saving a known transaction must not reset is_reserved "
+               "of an output another build holds)", func=getattr(prog.function_of(c_), "qualname", None), key=f"C14-D4/WRITERS|txo-insert|{n}")
+    ctx.floor("C14-D4/WRITERS", "txo row insertions", n, 2)
+    bad = [(m_, x) for m_ in prog.modules.values() if m_.name.startswith("lbry.wallet") and not m_.name.startswith("lbry.wallet.server")
+           for x in ast.walk(m_.tree) if isinstance(x, ast.Constant) and isinstance(x.value, str) and re.search(r"replace\s+into\s+txo\b", x.value, re.I)]
+    ctx.ob("C14-D4/WRITERS", not bad, f"{bad[0][0].relpath}:{bad[0][1].lineno}" if bad else "lbry/wallet/database.py:1", "no SQL statement replaces txo rows", key="C14-D4/WRITERS|no-replace-sql")
 
 
 def owners(ctx, prog):
